@@ -59,6 +59,9 @@ struct Rec9 {
     log: Vec<i64>,
     exact: bool,
     overflow: bool,
+    /// process{abort: k}: the k-th probe invoked in this call panics after logging its inputs (0 = nobody)
+    abort_at: i64,
+    calls: i64,
 }
 impl Rec9 {
     fn push(&mut self, v: i64) {
@@ -70,7 +73,7 @@ impl Rec9 {
     }
 }
 thread_local! {
-    static R9: RefCell<Rec9> = RefCell::new(Rec9 { ptrs: Vec::new(), log: Vec::new(), exact: true, overflow: false });
+    static R9: RefCell<Rec9> = RefCell::new(Rec9 { ptrs: Vec::new(), log: Vec::new(), exact: true, overflow: false, abort_at: 0, calls: 0 });
 }
 
 #[derive(Clone, Copy)]
@@ -86,6 +89,11 @@ struct Probe {
 }
 impl Node for Probe {
     fn process(&mut self, inputs: &[Input], output: &mut [Buffer]) {
+        let abort = R9.with(|r| {
+            let mut r = r.borrow_mut();
+            r.calls += 1;
+            r.abort_at > 0 && r.calls == r.abort_at
+        });
         R9.with(|r| {
             let mut r = r.borrow_mut();
             r.push(self.id);
@@ -110,6 +118,9 @@ impl Node for Probe {
                 r.push(v);
             }
         });
+        if abort {
+            panic!("probe: requested abort");
+        }
         match self.kind {
             PK::Src(c) => {
                 let v = (c + self.cnt + 1) as f32;
@@ -264,6 +275,8 @@ macro_rules! c09_runner {
                             r.log = Vec::with_capacity(2 * slots + 5 * (nedges + 2 * slots * slots) + 16);
                             r.exact = true;
                             r.overflow = false;
+                            r.abort_at = ev["a"]["abort"].as_i64().unwrap_or(0);
+                            r.calls = 0;
                         });
                         let p = proc.as_mut().unwrap();
                         let free = (pc + xn) % 2 == 1;
@@ -304,7 +317,8 @@ macro_rules! c09_runner {
                         let o = json!({"ok": res.is_some() && !overflow, "exact": exact, "order": order, "src": src, "cnt": cnt,
                                        "ptr": ptr, "nbs": nbs, "val": val, "bufs": bufs,
                                        "bound": g.node_bound(), "maxin": maxin, "edges": nedges});
-                        out.ev("process", json!({"out": o_ix, "via": if free { "fn" } else { "method" }}), if res.is_some() { r_unit() } else { r_panic() }, o, h);
+                        let abort_at = ev["a"]["abort"].as_i64().unwrap_or(0);
+                        out.ev("process", json!({"out": o_ix, "via": if free { "fn" } else { "method" }, "abort": abort_at}), if res.is_some() { r_unit() } else { r_panic() }, o, h);
                     }
                     "sources" | "sinks" => {
                         let mut items: Vec<usize> = Vec::with_capacity(4 * slots + 16);
@@ -405,7 +419,7 @@ fn c09_variant(ex: &[Value], container: &str, weight: &str, vac: bool) -> Vec<Va
                 map = m;
                 json!({"ev":"graph","a":{"cfg":cfg}})
             }
-            "process" => json!({"ev":"process","a":{"out": map[us(&ev["a"]["out"])]}}),
+            "process" => json!({"ev":"process","a":{"out": map[us(&ev["a"]["out"])], "abort": ev["a"]["abort"].as_i64().unwrap_or(0)}}),
             _ => ev.clone(),
         })
         .collect()
@@ -980,7 +994,9 @@ fn gen_graph_exec(rng: &mut Rng, max_nodes: u64, max_edges: u64) -> Vec<Value> {
                 0 => ex.push(json!({"ev":"sources","a":{"x":0}})),
                 1 => ex.push(json!({"ev":"sinks","a":{"x":0}})),
                 _ => {
-                    ex.push(json!({"ev":"process","a":{"out": *rng.pick(&live)}}));
+                    // one call in ten is cut short by a panicking node (caught by the caller); the processor is used again
+                    let abort = if rng.chance(1, 10) { rng.range(1, 4) } else { 0 };
+                    ex.push(json!({"ev":"process","a":{"out": *rng.pick(&live), "abort": abort}}));
                     left -= 1;
                 }
             }
